@@ -14,9 +14,12 @@
 #include "vjson.hpp"
 #include "vguard.hpp"
 using namespace rtosc;
-struct Obj { int i; int n; float f; float l; bool t; };
+struct Obj { int i; int n; float f; float l; bool t; float fx; bool ty; };
 #define rObject Obj
 static const Ports ports = {
+    // look-alikes: ports whose names merely START with the name of a bound parameter, declared before it, with another type / range
+    rParamF(fx, rLinear(0, 1), "look-alike of f"),
+    rParamI(ty, rLinear(0, 9), "look-alike of t"),
     rParamI(i, rLinear(0, 127), "int"),
     rParamI(n, rLinear(-64, 63), "int"),
     rParamF(f, rLinear(-2.5, 10.25), "float"),
